@@ -859,6 +859,20 @@ func (e *Exec) sxCall(env *SpecEnv, n *ast.CallExpr) SVal {
 		b := e.mat(env, e.sx(env, n.Args[0]))
 		i := e.mat(env, e.sx(env, n.Args[1]))
 		return SVal{T: e.at(types.Typ[types.Byte], sel(e.hget(env.heap(), "GB_bufdata"), b), sel(e.hget(env.heap(), "GB_bufrd"), b), i), Typ: types.Typ[types.Byte]}
+	case "arrSet":
+		// arrSet(a, i, v): the array value a with element i replaced by v
+		a := e.sx(env, n.Args[0])
+		return SVal{T: sto(e.mat(env, a), e.mat(env, e.sx(env, n.Args[1])), e.mat(env, e.sx(env, n.Args[2]))), Typ: a.Typ}
+	case "clock":
+		// clock(): the latest value read from the (monotone) wall clock, in ns
+		return SVal{T: e.hget(env.heap(), e.heapMap("G_clock", "Int")), Typ: intT}
+	case "nanos":
+		// nanos(t): a time.Time as nanoseconds since the Unix epoch (the model's representation)
+		return SVal{T: e.mat(env, e.sx(env, n.Args[0])), Typ: intT}
+	case "signed64":
+		// signed64(u): the value of the 64-bit pattern u (0 <= u < 2^64) read as a two's-complement int64
+		u := e.mat(env, e.sx(env, n.Args[0]))
+		return SVal{T: fmt.Sprintf("(ite (>= %s 9223372036854775808) (- %s 18446744073709551616) %s)", u, u, u), Typ: intT}
 	case "sumInts":
 		// sum of an []int: uninterpreted sum(array, off, len) with the usual unfolding lemma-axioms
 		v := e.sx(env, n.Args[0])
